@@ -105,9 +105,9 @@ CHECKS.update({
         design="3/C04", note=TB + "Where each core tests the flag is monitored, not proved. Known finding: a problem without free variables makes its single evaluation and returns SUCCESS without testing the flag. Fixed by commits: CRS initial population, Luksan, NEWUOA, AGS, StoGO.",
         technique="Lean 4 proof (flag propagation through arbitrary algorithm machines) + replay correspondence + per-k monitor"),
     "C06": dict(category="proof",
-        text="Lean 4 proofs over a model of the SLSQP incumbent rule (the only NLopt-authored feasible-incumbent bookkeeping): with tolerances separating feasible from infeasible points the reported point is the best feasible evaluation (slsqp_best_feasible_partial); the full-strength statement is refuted by a concrete witness in the model (slsqp_best_feasible_full_false: an infeasible-within-tolerance incumbent can shadow a feasible one) and is kept visible. For the other constraint-capable algorithms (COBYLA, MMA, CCSAQ, ISRES, AUGLAG, ORIG_DIRECT, AGS) the monitor compares the result with the best feasible entry of the recorded trace (tolerances as documented); the wrapper replay shows no layer changes the result.",
-        design="3/C06", note=TB + "Incumbent rules of COBYLA/MMA/ISRES/AUGLAG/DIRECT/AGS cores are monitor-only. Equality-constrained ISRES is excluded from the best-feasible monitor (penalty ranking by design).",
-        technique="Lean 4 proof (incumbent fold, witness for the refuted full statement) + best-feasible monitor + replay correspondence"),
+        text="Lean 4 proofs over models of the two NLopt-authored feasible-incumbent rules. SLSQP driver rule: with tolerances separating feasible from infeasible points the reported point is the best feasible evaluation (slsqp_best_feasible_partial); the full-strength statement is refuted by a concrete witness (slsqp_best_feasible_full_false: with unequal tolerances an infeasible incumbent can shadow feasible points) which is replayed on the real library on every run (harness/wit_slsqp.c, known finding). ISRES rule (Model/Isres.lean, Props/C06Isres.lean): for inequality constraints, if a feasible point was evaluated the incumbent is the first feasible point of minimal value, it stays feasible and never gets worse (isres_best_feasible, isres_first_best, isres_minf_mono_run) under the hypotheses NoNaNFeas and InfeasPos; each hypothesis is shown necessary by a decide-proved witness, and the underflow witness (squared violation rounds to 0) is replayed on the library (harness/wit_isres.c, known finding). Tie: both rules are replayed over the evaluated points of every SLSQP / ISRES run (inc stream) and the model's incumbent is compared bitwise with the returned (x, opt_f). For the other constraint-capable algorithms (COBYLA, MMA, CCSAQ, AUGLAG, ORIG_DIRECT, AGS) the monitor compares the result with the best feasible entry of the recorded trace (tolerances as documented), incl. active constraints with unequal tolerances and several generations of ISRES.",
+        design="3/C06, 8.2", note=TB + "Incumbent rules of COBYLA/MMA/AUGLAG/DIRECT/AGS cores are monitor-only. Equality-constrained ISRES is outside the proved statement (isres_best_feasible_eq_false). The feasibility flag and penalties fed to the models are recomputed by the harness from the constraint callbacks (Python doubles).",
+        technique="Lean 4 proof (incumbent folds for SLSQP and ISRES, witnesses for the refuted full statements replayed on the library) + incumbent-rule replay correspondence + best-feasible monitor"),
     "C09": dict(category="proof",
         text="Lean 4 proofs over the wrapper model: every ill-posed call (NULL handle, missing objective, NULL x / opt_f, lb > ub, x0 outside the box or off a fixed coordinate, unsupported constraints, missing subsidiary optimizer, population / dimension restrictions) returns its documented negative code before any callback, with x, opt_f and the object untouched (rejected_*, ill_posed_rejected, null_handle_rejected); the accepted/rejected decision is a total function of the settings. Tie: every malformed spec is run on the library and through the model (code, no callbacks, getters before = after). Monitor: malformed stream of the generator covering each rejection branch.",
         design="3/C09", note=TB + "Rejections raised inside numeric cores after the first callback (e.g. BOBYQA step scaling) are monitored only. Fixed by commits: NULL handle crash, fixed-coordinate x0.",
